@@ -447,9 +447,9 @@ QUICK = {
 }
 THOROUGH = {
     'multipoint': [0, 1, 2, 4, 6],
-    'line': [[1], [2], [3], [4], [6], [8], [2, 2], [1, 3], [3, 3], [2, 2, 2]],
+    'line': [[1], [2], [3], [4], [6], [8], [10], [12], [2, 2], [1, 3], [3, 3], [2, 2, 2], [4, 4]],
     'line_exact': [[2], [3]],
-    'polygon': [[[1]], [[2]], [[3]], [[4]], [[5]], [[3, 3]], [[4, 3]], [[3], [3]], [[6]]],
+    'polygon': [[[1]], [[2]], [[3]], [[4]], [[5]], [[3, 3]], [[4, 3]], [[3], [3]], [[6]], [[7]], [[4, 4]], [[3, 3, 3]], [[4], [3]], [[3, 3], [3]]],
 }
 
 
@@ -457,7 +457,7 @@ def run_kernels(check, pool, Task):
     tier = check.tier
     plan = THOROUGH if tier == 'thorough' else QUICK
     seeds = 4 if tier == 'thorough' else 3
-    cap = 900 if tier == 'thorough' else 400
+    cap = 1500 if tier == 'thorough' else 400
     check.bounds.update({'coordinates': '|v| <= 2^25 (integers; dyadic rationals reduce to integers by homogeneity)',
                          'kernel_structures': plan})
     check.assumptions += [
